@@ -293,23 +293,7 @@ def harr_check(ctx, props, focus, replay=None):
         ex = exhaustive(ctx, 5, 4, [1, 40, 100], 4) + exhaustive(ctx, 3, 3, [1, 40, 100], 5)
     nb += run_histories(ctx, exe, ex, 'exhaustive')
     if focus == 'C07':
-        hdr_slot = 12 + 84
-        try:
-            cs = open(os.path.join(COQ, 'Gen', 'Consts.v')).read()
-            hdr_slot = int(re.search(r'HARR_HDRSZ : nat := (\d+)', cs).group(1)) + int(re.search(r'HARR_SLOTSZ : nat := (\d+)', cs).group(1))
-        except Exception:
-            pass
-        # (a) constructor on regions too small for the header and one slot: must refuse and write nothing past the region
-        tops = ['tiny %d' % n for n in range(1, hdr_slot + 40)]
-        rc, o, e = ctx.run([exe], inp=('\n'.join(tops) + '\n').encode(), timeout=120)
-        tl = o.decode('latin1').splitlines()
-        for n, line in zip(range(1, hdr_slot + 40), tl):
-            ctx.cov['evaluations'] += 1
-            ctx.count('ctor-tiny')
-            if line in ('CRASH', 'TIMEOUT') or (n < hdr_slot and line != 'null'):
-                ctx.report('impl-vs-spec', {'op': 'ctor', 'observed': 'accepts-or-overruns-too-small-region'},
-                           'qhasharr() on a %d-byte region (< header + one slot = %d): %s' % (n, hdr_slot, line), {'ops': ['tiny %d' % n], 'impl': line})
-                break
+        harr_tiny_ctor(ctx, exe, 'impl-vs-spec', False)
         # (b) the image must be a function of the operation history alone: same history, two different stack paintings
         sub = [(hdr, [x for o2 in ops for x in ((o2, 'raw') if o2.split()[0] in ('put', 'del', 'delidx', 'clear') else (o2,))]) for hdr, ops in hists[:30 if quick else 200]]
         lines = []
@@ -338,6 +322,29 @@ def harr_check(ctx, props, focus, replay=None):
                'well-formedness check of the dumped image) and vs extracted image model slot by slot; distinct_nontrivial = distinct (capacity, image) pairs')
 
 
+def harr_tiny_ctor(ctx, exe, kind, crash_only):
+    """constructor on regions too small for the header and one slot (exact size, inaccessible page behind): it must refuse and
+    write nothing past the region.  crash_only: report only accesses outside the region (C11), not a wrongly accepted size (C07)."""
+    hdr_slot = 12 + 84
+    try:
+        cs = open(os.path.join(COQ, 'Gen', 'Consts.v')).read()
+        hdr_slot = int(re.search(r'HARR_HDRSZ : nat := (\d+)', cs).group(1)) + int(re.search(r'HARR_SLOTSZ : nat := (\d+)', cs).group(1))
+    except Exception:
+        pass
+    tops = ['tiny %d' % n for n in range(1, hdr_slot + 40)]
+    rc, o, e = ctx.run([exe], inp=('\n'.join(tops) + '\n').encode(), timeout=120)
+    tl = o.decode('latin1').splitlines()
+    for n, line in zip(range(1, hdr_slot + 40), tl):
+        ctx.cov['evaluations'] += 1
+        ctx.count('ctor-tiny')
+        if line in ('CRASH', 'TIMEOUT') or (not crash_only and n < hdr_slot and line != 'null'):
+            sig = {'op': 'ctor', 'observed': 'accepts-or-overruns-too-small-region'}
+            if crash_only:
+                sig = {'container': 'harr', 'op': 'ctor', 'observed': 'crash-outside-region'}
+            ctx.report(kind, sig, 'qhasharr() on a %d-byte region (< header + one slot = %d): %s' % (n, hdr_slot, line), {'ops': ['tiny %d' % n], 'impl': line})
+            break
+
+
 def harr_region_engine(ctx, nh, kinds, why):
     """Extra search engine for other properties (C11: the static table never touches a byte outside the user's region;
     C12: values come back byte for byte with their exact length): random histories on the guard-paged region, reporting
@@ -347,6 +354,8 @@ def harr_region_engine(ctx, nh, kinds, why):
         ctx.broken.append(('obligation:build-h_harr', msg))
         return
     rng = ctx.rng
+    if 'crash' in kinds:
+        harr_tiny_ctor(ctx, exe, 'impl-vs-property', True)
     hists = [gen_history(rng, rng.choice([2, 3, 4, 5, 8, 9, 12]), 100, rng.choice([3, 5, 8, 14]), 0.05) for _ in range(nh)]
     lines, index = [], []
     for hi, (hdr, ops) in enumerate(hists):
